@@ -394,6 +394,9 @@ def judge_align(case, o, wrong=None):
                 raise Harness("generated coordinates coincide after the translation")
     user = o["guessed"] if case["restr"] is None else [tuple(p) for p in case["restr"]]
     user = user or []
+    if any(not (0 <= i < ns and 0 <= j < ne) for i, j in user):
+        raise Harness(f"restraint list {user} has indices outside the molecules ({ns} x {ne} atoms): outside the routing contract "
+                      "(guessed lists are checked by the guess_protein_restrains contract)")
     surv = []
     for (i, j) in user:
         f, m = (i, j) if start_fixed else (j, i)
@@ -514,7 +517,8 @@ def _align_combos(ns, ne, fm, mm, tier):
                     yield restr, ignore_h, deform
 
 
-def _align_parts(ns, ne, tier, per_task=2500):
+def _align_parts(ns, ne, tier, per_task=None):
+    per_task = per_task or (2500 if tier == "quick" else 12000)
     units = align_units(ns, ne)
     cost = sum(sum(1 for _ in _align_combos(ns, ne, fm, mm, tier)) for fm, mm in units)
     return max(1, min(len(units), round(cost / per_task)))
@@ -595,11 +599,11 @@ def task_align_guards(prop, seed):
             # (a) wrong clause: the fixed-side index is the user's index (no re-indexing)
             w = judge_align(case, o, wrong="identity_index")
             out.append(ob(base + ".wrong_clause.fixed_index_not_reindexed",
-                          "refuted" if clean and w["ensures.fixed_side_designates_intended_atom"] else "discharged", evaluations=1, **G))
+                          "refuted" if clean and w.get("ensures.fixed_side_designates_intended_atom") else "discharged", evaluations=1, **G))
             # (b) wrong clause: hydrogen pairs are kept
             w = judge_align(case, o, wrong="no_drop")
             out.append(ob(base + ".wrong_clause.hydrogen_pairs_kept",
-                          "refuted" if clean and w["ensures.surviving_pairs_kept_in_order_hydrogen_pairs_dropped"] else "discharged",
+                          "refuted" if clean and w.get("ensures.surviving_pairs_kept_in_order_hydrogen_pairs_dropped") else "discharged",
                           evaluations=1, **G))
             # (c) corrupted observation: pairs not reversed
             o2 = dict(o)
@@ -608,7 +612,7 @@ def task_align_guards(prop, seed):
             o2["calls"] = [c0]
             w = judge_align(case, o2)
             out.append(ob(base + ".corrupted.pairs_not_reversed",
-                          "refuted" if clean and (w["ensures.fixed_side_designates_intended_atom"] or w["ensures.mobile_side_designates_intended_atom"])
+                          "refuted" if clean and (w.get("ensures.fixed_side_designates_intended_atom") or w.get("ensures.mobile_side_designates_intended_atom"))
                           else "discharged", evaluations=1, **G))
             # (d) corrupted observation: stale fixed-side index (not re-indexed after the filter)
             c0 = dict(o["calls"][0])
@@ -616,14 +620,14 @@ def task_align_guards(prop, seed):
             o2["calls"] = [c0]
             w = judge_align(case, o2)
             out.append(ob(base + ".corrupted.stale_fixed_index",
-                          "refuted" if clean and w["ensures.fixed_side_designates_intended_atom"] else "discharged", evaluations=1, **G))
+                          "refuted" if clean and w.get("ensures.fixed_side_designates_intended_atom") else "discharged", evaluations=1, **G))
             # (e) corrupted observation: order of the surviving pairs changed
             c0 = dict(o["calls"][0])
             c0["restriction"] = list(o["calls"][0]["restriction"])[::-1]
             o2["calls"] = [c0]
             w = judge_align(case, o2)
             out.append(ob(base + ".corrupted.order_changed",
-                          "refuted" if clean and (w["ensures.fixed_side_designates_intended_atom"] or w["ensures.mobile_side_designates_intended_atom"])
+                          "refuted" if clean and (w.get("ensures.fixed_side_designates_intended_atom") or w.get("ensures.mobile_side_designates_intended_atom"))
                           else "discharged", evaluations=1, **G))
             # (f) corrupted observation: molecules swapped in the call
             c0 = dict(o["calls"][0])
@@ -631,7 +635,7 @@ def task_align_guards(prop, seed):
             o2["calls"] = [c0]
             w = judge_align(case, o2)
             out.append(ob(base + ".corrupted.arrays_swapped",
-                          "refuted" if clean and w["args.mobile_is_the_smaller_molecule"] and w["ensures.fixed_side_designates_intended_atom"]
+                          "refuted" if clean and w.get("args.mobile_is_the_smaller_molecule") and w.get("ensures.fixed_side_designates_intended_atom")
                           else "discharged", evaluations=1, **G))
             # vacuity: the scope contains swapped / filtered / dropped situations
             n_swap = n_drop = 0
@@ -946,13 +950,13 @@ def task_protein_guards(prop, seed):
         # corrupted: second residue's offset taken from the other molecule (2 -> 1)
         w = eval_protein(case, pool, A, corrupt=lambda P: [((i - 1) if i >= 2 else i, j) for i, j in P])
         out.append(ob(base + ".corrupted.offset_of_other_molecule",
-                      "refuted" if clean and (w["ensures.pairs_only_same_sequence_position"] or w["ensures.every_atom_has_a_partner"])
+                      "refuted" if clean and (w.get("ensures.pairs_only_same_sequence_position") or w.get("ensures.every_atom_has_a_partner"))
                       else "discharged", evaluations=1, **G))
         w = eval_protein(case, pool, A, corrupt=lambda P: P[:-1] if P[-1][0] != P[-2][0] or True else P)
         out.append(ob(base + ".corrupted.last_pair_dropped",
-                      "refuted" if clean and w["ensures.every_atom_has_a_partner"] else "discharged", evaluations=1, **G))
+                      "refuted" if clean and w.get("ensures.every_atom_has_a_partner") else "discharged", evaluations=1, **G))
         w = eval_protein(case, pool, A, corrupt=lambda P: P + [(6, 0)])
-        out.append(ob(base + ".corrupted.index_out_of_range", "refuted" if clean and w["ensures.indices_within_range"] else "discharged",
+        out.append(ob(base + ".corrupted.index_out_of_range", "refuted" if clean and w.get("ensures.indices_within_range") else "discharged",
                       evaluations=1, **G))
         # wrong clause: equal residue counts are refused
         c2 = {"fn": "b10:protein", "lens1": [2, 1], "lens2": [1, 3], "names": "distinct"}
